@@ -41,6 +41,12 @@ Theorem C01_labels : forall src p sym, typed p = true -> pass1 p src = AOk sym -
 Proof. exact labels_spec. Qed.
 Print Assumptions C01_labels.
 
+(* the object file of assemble_debug carries exactly that symbol table *)
+Theorem C01_symtab_kept : forall src p o, assemble true (Some src) p = AOk o ->
+  exists sym, pass1 p (Some src) = AOk sym /\ o_sym o = Some sym.
+Proof. exact debug_keeps_symtab. Qed.
+Print Assumptions C01_symtab_kept.
+
 (* debug symbols change neither the image nor the verdict *)
 Theorem C01_debug_irrelevant : forall src p,
   (forall o1, assemble true (Some src) p = AOk o1 ->
